@@ -54,8 +54,20 @@ impl Scratch {
 
 impl Drop for Scratch {
     fn drop(&mut self) {
-        // make everything removable again
-        let _ = std::process::Command::new("chmod").arg("-R").arg("u+rwx").arg(&self.dir).status();
+        // make everything removable again (in process: fork() is very slow under AddressSanitizer)
+        fn open_up(p: &Path) {
+            if let Ok(md) = fs::symlink_metadata(p) {
+                if md.is_dir() {
+                    let _ = fs::set_permissions(p, fs::Permissions::from_mode(0o700));
+                    if let Ok(rd) = fs::read_dir(p) {
+                        for e in rd.flatten() {
+                            open_up(&e.path());
+                        }
+                    }
+                }
+            }
+        }
+        open_up(&self.dir);
         let _ = fs::remove_dir_all(&self.dir);
     }
 }
